@@ -191,3 +191,246 @@ def gen_vru_locks():
     body += f"/-- `self._lock` is an RLock (public methods call public methods) -/\ndef lockReentrant : Bool := {b(reentrant)}\n"
     body += "end Generated.VruLocks\n"
     gen_lean.write_if_changed("VruLocks.lean", body)
+
+
+# ------------------------------------------------------------------------------------------------ ENUMERATED domains
+# Round 4.  What a received VAM can contain is defined by the ASN.1 module, not by the Python enums of
+# vru_clustering.py: every ENUMERATED field (and every CHOICE / named BIT STRING) reachable from the `VAM` type is
+# re-read from the repository's ASN.1 text on every run (asn1tools parser, nothing of the state machine is executed).
+# The harness (props/c18.py `enum_sweep`) delivers every value of every such field through the real coder; the
+# theorem side gets `Generated/VamEnums.lean`: the complete reason tables and the conversions of received data into a
+# Python Enum that the receive path performs (ast pass), with the ASN.1 values each of those enums lacks.
+
+VAM_ASN_SRC = "facilities/vru_awareness_service/vam_asn1.py"
+
+
+class VamAsn:
+    """type tree of the VAM ASN.1 module; paths: member name (SEQUENCE), '|alt' (CHOICE alternative), '#0' (first
+    element of a SEQUENCE OF)"""
+    _inst = None
+
+    def __init__(self):
+        import ast
+        import asn1tools
+        tree = ast.parse(gen_lean.src(VAM_ASN_SRC))
+        text = None
+        for n in tree.body:
+            if isinstance(n, ast.Assign) and any(isinstance(t, ast.Name) and t.id == "VAM_ASN1_DESCRIPTIONS" for t in n.targets):
+                text = ast.literal_eval(n.value)
+        if not isinstance(text, str):
+            raise ValueError("VAM_ASN1_DESCRIPTIONS (string literal) not found in vam_asn1.py")
+        spec = asn1tools.parse_string(text)
+        mods = [m for m in spec.values() if "VAM" in m.get("types", {})]
+        if len(mods) != 1:
+            raise ValueError("ASN.1 module defining the VAM type not found")
+        self.types = mods[0]["types"]
+
+    @classmethod
+    def get(cls):
+        if cls._inst is None:
+            cls._inst = cls()
+        return cls._inst
+
+    def deref(self, d):
+        seen = 0
+        while d["type"] in self.types:
+            d = self.types[d["type"]]
+            seen += 1
+            if seen > 50:
+                raise ValueError("ASN.1 type reference cycle")
+        return d
+
+    @staticmethod
+    def members(t):
+        return [m for m in t["members"] if isinstance(m, dict)]
+
+    @staticmethod
+    def enum_values(t):
+        return [(v[0], v[1]) for v in t["values"] if isinstance(v, (tuple, list))]
+
+    def fields(self, root="VAM"):
+        """[(path, type name, kind, domain)]: kind 'enum' -> [(identifier, number)], 'choice' -> [alternative names],
+        'bits' -> (number of bits, number of named bits)"""
+        out = []
+
+        def walk(d, path, stack):
+            name = d["type"] if d["type"] in self.types else None
+            if name is not None:
+                if name in stack:
+                    return
+                stack = stack + [name]
+            t = self.deref(d)
+            k = t["type"]
+            if k == "ENUMERATED":
+                out.append((tuple(path), name or "ENUMERATED", "enum", self.enum_values(t)))
+            elif k == "BIT STRING" and t.get("named-bits") and isinstance((t.get("size") or [None])[0], int):
+                out.append((tuple(path), name or "BIT STRING", "bits", (t["size"][0], len(t["named-bits"]))))
+            elif k in ("SEQUENCE", "SET"):
+                for m in self.members(t):
+                    walk(m, path + [m["name"]], stack)
+            elif k == "CHOICE":
+                out.append((tuple(path), name or "CHOICE", "choice", [m["name"] for m in self.members(t)]))
+                for m in self.members(t):
+                    walk(m, path + ["|" + m["name"]], stack)
+            elif k in ("SEQUENCE OF", "SET OF"):
+                walk(t["element"], path + ["#0"], stack)
+        walk({"type": root}, [], [])
+        return out
+
+    @staticmethod
+    def _lo(t, key, default=0):
+        r = t.get(key)
+        if not r:
+            return default
+        x = r[0]
+        if isinstance(x, (tuple, list)):
+            x = x[0]
+        return x if isinstance(x, int) else default
+
+    def minimal(self, d, path=(), value=None):
+        """smallest instance of the type; along `path` optional members are present / the alternative is selected and
+        the leaf is `value`"""
+        t = self.deref(d)
+        k = t["type"]
+        if not path and value is not None:
+            return value
+        if k in ("SEQUENCE", "SET"):
+            out = {}
+            for m in self.members(t):
+                on = bool(path) and path[0] == m["name"]
+                if on or not (m.get("optional") or "default" in m):
+                    out[m["name"]] = self.minimal(m, path[1:] if on else (), value if on else None)
+            return out
+        if k == "CHOICE":
+            ms = self.members(t)
+            m = next((x for x in ms if path and path[0] == "|" + x["name"]), None)
+            if m is None:
+                return (ms[0]["name"], self.minimal(ms[0]))
+            return (m["name"], self.minimal(m, path[1:], value))
+        if k in ("SEQUENCE OF", "SET OF"):
+            n = max(self._lo(t, "size"), 1 if path else 0)
+            return [self.minimal(t["element"], path[1:] if (i == 0 and path) else (), value if (i == 0 and path) else None)
+                    for i in range(n)]
+        if k == "ENUMERATED":
+            return self.enum_values(t)[0][0]
+        if k == "INTEGER":
+            return self._lo(t, "restricted-to")
+        if k == "BOOLEAN":
+            return False
+        if k == "NULL":
+            return None
+        if k == "BIT STRING":
+            n = self._lo(t, "size")
+            return (bytes((n + 7) // 8), n)
+        if k == "OCTET STRING":
+            return bytes(self._lo(t, "size"))
+        if k.endswith("String"):
+            return "a" * self._lo(t, "size")
+        raise ValueError(f"VamAsn.minimal: unsupported ASN.1 type {k}")
+
+    def graft(self, node, d, path, value):
+        """`node` (an instance of type `d`) with the leaf at `path` replaced by `value`; missing parts are created"""
+        if not path:
+            return value
+        t = self.deref(d)
+        k = t["type"]
+        if k in ("SEQUENCE", "SET"):
+            m = next((x for x in self.members(t) if x["name"] == path[0]), None)
+            if m is None or not isinstance(node, dict):
+                raise ValueError(f"VamAsn.graft: no member {path[0]}")
+            out = dict(node)
+            out[path[0]] = self.graft(node[path[0]], m, path[1:], value) if path[0] in node else self.minimal(m, path[1:], value)
+            return out
+        if k == "CHOICE":
+            m = next((x for x in self.members(t) if path[0] == "|" + x["name"]), None)
+            if m is None:
+                raise ValueError(f"VamAsn.graft: no alternative {path[0]}")
+            if len(path) == 1 and value is None:        # "this alternative", whatever its content
+                return node if (isinstance(node, tuple) and node[0] == m["name"]) else (m["name"], self.minimal(m))
+            if isinstance(node, tuple) and node[0] == m["name"]:
+                return (m["name"], self.graft(node[1], m, path[1:], value))
+            return (m["name"], self.minimal(m, path[1:], value))
+        if k in ("SEQUENCE OF", "SET OF"):
+            lst = list(node) if node else [self.minimal(t["element"])]
+            lst[0] = self.graft(lst[0], t["element"], path[1:], value)
+            return lst
+        raise ValueError(f"VamAsn.graft: path {path} continues below a {k}")
+
+
+def rx_enum_conversions():
+    """conversions of (received) data into a Python Enum inside the receive path of VBSClusteringManager: the methods
+    reachable from `on_received_vam` through `self.<method>`; a conversion is a call `EnumClass(<arg>)` or a lookup
+    `EnumClass[<key>]` of an Enum subclass defined in vru_clustering.py.  Returns [(enum class, [ASN.1 identifiers of
+    the type of the same name that the Python enum does not have])] - `<no ASN.1 type of this name>` when there is no
+    namesake (then every value is foreign to it)."""
+    import ast
+    tree = ast.parse(gen_lean.src(CLUSTERING_SRC))
+    enums = {}
+    for n in tree.body:
+        if isinstance(n, ast.ClassDef) and any((isinstance(b, ast.Name) and b.id in ("Enum", "IntEnum", "StrEnum"))
+                                               or (isinstance(b, ast.Attribute) and b.attr in ("Enum", "IntEnum", "StrEnum")) for b in n.bases):
+            vals = []
+            for st in n.body:
+                if isinstance(st, ast.Assign) and isinstance(st.value, ast.Constant):
+                    vals.append(st.value.value)
+            enums[n.name] = vals
+    cls = next((n for n in tree.body if isinstance(n, ast.ClassDef) and n.name == CLUSTERING_CLASS), None)
+    if cls is None:
+        raise ValueError(f"class {CLUSTERING_CLASS} not found")
+    fns = {f.name: f for f in cls.body if isinstance(f, (ast.FunctionDef, ast.AsyncFunctionDef))}
+    if "on_received_vam" not in fns:
+        raise ValueError("VBSClusteringManager.on_received_vam not found")
+    # only what is reachable while a VAM is being processed: on_received_vam and the private helpers it calls
+    reach, todo = [], ["on_received_vam"]
+    while todo:
+        nm = todo.pop(0)
+        if nm in reach:
+            continue
+        reach.append(nm)
+        for n in ast.walk(fns[nm]):
+            if isinstance(n, ast.Call) and _is_self_attr(n.func) and n.func.attr in fns:
+                todo.append(n.func.attr)
+    asn = VamAsn.get()
+    out = []
+    for nm in reach:
+        for n in ast.walk(fns[nm]):
+            target = None
+            if isinstance(n, ast.Call) and isinstance(n.func, ast.Name) and n.func.id in enums and (n.args or n.keywords):
+                target = n.func.id
+            elif isinstance(n, ast.Subscript) and isinstance(n.value, ast.Name) and n.value.id in enums:
+                target = n.value.id
+            if target is None:
+                continue
+            if target in asn.types and asn.deref({"type": target})["type"] == "ENUMERATED":
+                have = set(enums[target])
+                missing = [v for v, _ in asn.enum_values(asn.deref({"type": target})) if v not in have]
+            else:
+                missing = ["<no ASN.1 type of this name>"]
+            out.append((target, nm, missing))
+    return out, enums
+
+
+@gen_lean.register(props=["C18"])
+def gen_vam_enums():
+    asn = VamAsn.get()
+    conv, enums = rx_enum_conversions()
+    q = lambda s: '"' + str(s).replace('"', "'") + '"'
+    body = "namespace Generated.VamEnums\n"
+    for lean, name in (("breakupReasons", "ClusterBreakupReason"), ("leaveReasons", "ClusterLeaveReason")):
+        vals = asn.enum_values(asn.deref({"type": name}))
+        body += f"/-- every value of `{name}` in the ASN.1 module of the repository: (identifier, number) -/\n"
+        body += f"def {lean} : List (String × Nat) := [" + ", ".join(f"({q(v)}, {n})" for v, n in vals) + "]\n"
+        body += f"/-- the values of the Python enum `{name}` of vru_clustering.py -/\n"
+        body += f"def py{lean[0].upper()}{lean[1:]} : List String := [" + ", ".join(q(v) for v in enums.get(name, [])) + "]\n"
+    body += ("/-- conversions of received data into a Python Enum in the receive path (methods reachable from\n"
+             "`on_received_vam`): (enum class, method, identifiers of the ASN.1 type of that name the Python enum lacks) -/\n")
+    body += "def rxEnumConversions : List (String × String × List String) := [" + ", ".join(
+        f"({q(c)}, {q(m)}, [" + ", ".join(q(x) for x in miss) + "])" for c, m, miss in conv) + "]\n"
+    body += "/-- ENUMERATED / CHOICE / named BIT STRING fields reachable from the VAM type: (path, type, number of values) -/\n"
+    rows = []
+    for path, name, kind, dom in asn.fields():
+        n = len(dom) if kind in ("enum", "choice") else 2 ** dom[0] if dom[0] <= 4 else dom[0] + 2
+        rows.append(f"({q('.'.join(path))}, {q(name)}, {n})")
+    body += "def enumeratedFields : List (String × String × Nat) := [\n  " + ",\n  ".join(rows) + "]\n"
+    body += "end Generated.VamEnums\n"
+    gen_lean.write_if_changed("VamEnums.lean", body)
